@@ -158,14 +158,14 @@ theorem readUntilImageData_caf {cfg : Cfg} {t : TCfg} {r s : R} (h : readUntilIm
       cases hi : infoOf r' with
       | none => rw [hi] at h; cases h
       | some i =>
-        rw [hi] at h; simp only at h
-        cases hb : bppFromUsize (bytesPerPixel i.color i.depth) with
-        | none => rw [hb] at h; cases h
-        | some bpp =>
-          rw [hb] at h; simp only [reserveBytes] at h
-          by_cases hl : r'.dec.limit ≥ outLineSize t i r'.flags (Sub.new i).width
-          · rw [if_pos hl] at h; simp only [Prod.mk.injEq] at h; obtain ⟨rfl, _⟩ := h; exact subNew_caf i
-          · rw [if_neg hl] at h; cases h
+        rw [hi] at h; simp only [reserveBytes] at h
+        by_cases hl : r'.dec.limit ≥ outLineSize t i r'.flags (Sub.new i).width
+        · rw [if_pos hl] at h; simp only at h
+          cases hb : bppFromUsize (bytesPerPixel i.color i.depth) with
+          | none => rw [hb] at h; cases h
+          | some bpp =>
+            rw [hb] at h; simp only [Prod.mk.injEq] at h; obtain ⟨rfl, _⟩ := h; exact subNew_caf i
+        · rw [if_neg hl] at h; cases h
 
 /-- `read_info` leaves the reader at the start of the first frame with a fresh unfiltering buffer -/
 theorem readInfo_start {cfg : Cfg} {t : TCfg} {r r0 : R} (hP : PreInv r) (hnr : r.isReader = false)
